@@ -14,7 +14,7 @@ CONSTANTS
   NMs = {1, 2, 3, 4, 5, 6}
   Bufs = {0, 1, 3, 16}
   NFs = {1, 2, 4}
-INIT Init
+INIT MCInit
 NEXT Next
 INVARIANTS LawsHold ExportCover
 CHECK_DEADLOCK FALSE
